@@ -61,9 +61,14 @@ def check_C01(tier):
     for i in range(0, n, 150):
         L.validate(rep, traces[i:i + 150], invs, [], tag="c01tr%d" % i)
     rep.sample({"trace_keys": traces[0]["keys"][:3], "trace_events": traces[0]["events"][:2]})
+    # (4) code -> spec on the repository's OWN tests: the linear count-min tests of tests/test_countmin.py run
+    # under the recording plugin (harness/suite_rec.py), every recorded call validated like (3)
+    import suite
+    suite.validate(rep, quick, tag="c01suite")
     rep.cov["exhaustive"] = True
     rep.cov["rule"] = ("TLC: all histories of the named small instances; edge replay: every exported transition; "
-                       "traces: random histories on real sketches, each event distinct by construction")
+                       "traces: random histories on real sketches, each event distinct by construction; traces recorded "
+                       "from the repository's own linear count-min tests")
     rep.cov["distinct_nontrivial"] = rep.cov["states"]
     rep.assumptions += ["columns of a key are observed on an empty probe sketch (not recomputed)",
                         "TLC 1.8 and the CommunityModules Json/IOUtils overrides"]
@@ -179,8 +184,13 @@ def check_C02(tier):
     # the merge tree the library itself builds: helpers.parallel_merging on 2..5 shared-memory sketches
     import padd as PA
     pb = PA.Batch()
-    for N in ([2, 3, 5] if quick else [1, 2, 3, 4, 5]):
-        PA.direct_merging(rep, rng, N, pb)
+    import fakemp
+    try:
+        for N in ([2, 3, 5] if quick else [1, 2, 3, 4, 5]):
+            PA.direct_merging(rep, rng, N, pb)
+    except fakemp.StandInUnsupported as exc:
+        rep.assumptions += ["the in-process stand-in for multiprocessing does not apply to this tree (%s): the "
+                            "parallel_merging stage was skipped" % str(exc)[:200]]
     pb.validate(rep, "c02pm")
     n = 80 if quick else 800
     traces = [H.random_history(rng) if i % 3 else H.partition_history(rng) for i in range(n)]
@@ -603,19 +613,31 @@ def check_C08(tier):
     # real spawned run started first? (no: it must not overlap the in-process runs that patch helpers)
     # the refinement the replays rely on: abstract bags <-> concrete sketches, every schedule and placement
     PA.composition_check(rep, 2 if quick else 3)
-    batch, ok = _padd_replays(rep, rng, scen, per, combos, "c08")
-    # merge-tree shape for every worker count 1..9 (odd counts carry a sketch over)
+    import fakemp
+    standin = True
     wide = PA.Batch()                  # traces with many slots are validated separately
-    if ok:
-        for N in ([5, 7, 9] if quick else [5, 6, 7, 8, 9]):
-            o = {"assign": [(i % N) + 1 for i in range(N)] + list(range(1, N + 1)), "st": "returned",
-                 "nrec": sum(range(1, N + 1)), "bag": list(range(1, N + 1)), "part": []}
-            if not PA.replay_outcome(rep, N, N, 0, None, o, rng, {"cms", "hll"}, wide):
-                ok = False
-                break
+    try:
+        batch, ok = _padd_replays(rep, rng, scen, per, combos, "c08")
+        # merge-tree shape for every worker count 1..9 (odd counts carry a sketch over)
+        if ok:
+            for N in ([5, 7, 9] if quick else [5, 6, 7, 8, 9]):
+                o = {"assign": [(i % N) + 1 for i in range(N)] + list(range(1, N + 1)), "st": "returned",
+                     "nrec": sum(range(1, N + 1)), "bag": list(range(1, N + 1)), "part": []}
+                if not PA.replay_outcome(rep, N, N, 0, None, o, rng, {"cms", "hll"}, wide):
+                    ok = False
+                    break
+    except fakemp.StandInUnsupported as exc:
+        # e.g. the monitor loop was rewritten around an interface the stand-in does not provide: no verdict
+        # from the in-process replays; real spawned processes only (more of them)
+        standin, ok, batch, wide = False, True, PA.Batch(), PA.Batch()
+        rep.assumptions += ["the in-process stand-in for multiprocessing does not apply to this tree (%s): schedule "
+                            "replays skipped, real spawned runs only" % str(exc)[:200]]
     # code -> spec: real spawned processes; items given as a generator (documented usage)
     if ok:
         runs = [PA.real_run(2, 5, 0, None, rng, {"cms", "hll"}, generator=True)]
+        if not standin:
+            runs += [PA.real_run(3, 6, 0, None, rng, all3, generator=False), PA.real_run(5, 7, 0, None, rng, {"cms", "hh"}, generator=False),
+                     PA.real_run(1, 3, 0, None, rng, {"hll"}, generator=True)]
         if not quick:
             runs += [PA.real_run(n, 6, fs, None, rng, w, generator=g)
                      for n, fs, w, g in ((1, 0, {"hll"}, False), (3, 1, all3, True), (5, 0, {"cms", "hh"}, False))]
@@ -656,20 +678,30 @@ def check_C19(tier):
                [(n, 4, fs, d) for n in (2, 3) for fs in (0, 1) for d in ((1, 1), (1, 2), (2, 1))] + \
                [(2, 8, 0, (1, 1)), (2, 9, 1, (2, 2)), (3, 11, 0, (2, 1)), (1, 3, 0, (1, 2)), (1, 5, 1, (1, 1)), (1, 4, 0, (1, 2))]
         per = 12
-    batch, ok = _padd_replays(rep, rng, scen, per, combos, "c19")
-    # specification growth: a merge process killed by the system (exit code < 0) => RuntimeError, no result
-    if ok:
-        for (N, km) in ([(2, 1), (3, 2)] if quick else [(2, 1), (3, 1), (3, 2), (4, 3), (5, 4)]):
-            outs = PA.model_check(rep, N, 3, 0, None, liveness=True, outcomes=True, tag="c19mk%d%d" % (N, km), merger_dies=km)
-            for o in (outs[:2] if quick else outs[:6]):
-                # with two sketch types the k-th merger belongs to the first type merged
-                if not PA.replay_outcome(rep, N, 3, 0, None, o, rng, {"cms", "hll"}, batch, kill_merger=km):
-                    ok = False
+    import fakemp
+    standin = True
+    try:
+        batch, ok = _padd_replays(rep, rng, scen, per, combos, "c19")
+        # specification growth: a merge process killed by the system (exit code < 0) => RuntimeError, no result
+        if ok:
+            for (N, km) in ([(2, 1), (3, 2)] if quick else [(2, 1), (3, 1), (3, 2), (4, 3), (5, 4)]):
+                outs = PA.model_check(rep, N, 3, 0, None, liveness=True, outcomes=True, tag="c19mk%d%d" % (N, km), merger_dies=km)
+                for o in (outs[:2] if quick else outs[:6]):
+                    # with two sketch types the k-th merger belongs to the first type merged
+                    if not PA.replay_outcome(rep, N, 3, 0, None, o, rng, {"cms", "hll"}, batch, kill_merger=km):
+                        ok = False
+                        break
+                if not ok:
                     break
-            if not ok:
-                break
+    except fakemp.StandInUnsupported as exc:
+        standin, ok, batch = False, True, PA.Batch()
+        rep.assumptions += ["the in-process stand-in for multiprocessing does not apply to this tree (%s): fault "
+                            "replays skipped, real spawned runs only" % str(exc)[:200]]
     if ok:
         runs = [PA.real_run(2, 5, 0, 3, rng, {"hll"})]                    # a worker calls os._exit(1) on item 3
+        if not standin:
+            runs += [PA.real_run(2, 5, 1, None, rng, {"cms", "hll"}), PA.real_run(1, 3, 0, 2, rng, {"cms"}),
+                     PA.real_run(3, 6, 2, 1, rng, {"cms", "hh"})]
         if not quick:
             runs += [PA.real_run(3, 6, 0, 1, rng, {"cms", "hll"}), PA.real_run(2, 5, 1, None, rng, {"cms", "hll"})]
         for i, run in enumerate(runs):
